@@ -70,8 +70,9 @@ def scoping_probe(st):
     out = []
     wl = Workload(rank_sizes={"M": 2}, bits_per_value={"All": 8},
                   einsums=[dict(name="E", tensor_accesses=[dict(name="A", projection=["m"]), dict(name="B", projection=["m"], output=True)])])
-    for spec_v, arch_v, expect in ((2, 5, 5 * 10), (2, None, 2 * 10)):
-        arch = Arch(nodes=[Memory(name="Main", size="x * 10", area=0, leak_power=0, tensors={"keep": "All"},
+    for spec_v, arch_v in ((2, 5), (2, None), (2, 0), (0, 3), (7, 1)):
+        expect = (arch_v if arch_v is not None else spec_v) * 10 + 7
+        arch = Arch(nodes=[Memory(name="Main", size="x * 10 + 7", area=0, leak_power=0, tensors={"keep": "All"},
                                   actions=[{"name": "read", "energy": 1, "throughput": 1}, {"name": "write", "energy": 1, "throughput": 1}]),
                            Compute(name="MAC", area=0, leak_power=0, actions=[{"name": "compute", "energy": 1, "throughput": 1}])],
                     **({"variables": {"x": arch_v}} if arch_v is not None else {}))
@@ -80,7 +81,52 @@ def scoping_probe(st):
         st.extra["scoping_probes"] = st.extra.get("scoping_probes", 0) + 1
         if got != expect:
             out.append(dict(property=PID, kind="scoping", spec_x=spec_v, arch_x=arch_v, got=got, expected=expect,
-                            what=f"scoping: Main.size = 'x * 10' with spec x={spec_v}, arch x={arch_v} evaluates to {got}, expected {expect}"))
+                            what=f"scoping: Main.size = 'x * 10 + 7' with spec x={spec_v}, arch x={arch_v} evaluates to {got}, expected {expect}"))
+    return out
+
+
+def stub_contract_sweep(st):
+    """Validates the stub's contract against the real `re` use: for names of which one is a word-
+    prefix of another (v1 / v10 / v2) and every dependency graph on them, the public API must behave
+    as the graph says (cycle -> EvaluationError, otherwise the right values).  Concrete, exhaustive
+    for 3 names; not the deciding step."""
+    from accelforge.frontend.spec import Spec
+    from accelforge.util._eval_expressions import EvaluationError
+    names = ["v1", "v10", "v2"]
+    consts = [3, 5, 7]
+    out = []
+    for bits in itertools.product([False, True], repeat=6):
+        dep = [[False] * 3 for _ in range(3)]
+        k = 0
+        for j in range(3):
+            for i in range(3):
+                if i != j:
+                    dep[j][i] = bits[k]
+                    k += 1
+        for perm in ((0, 1, 2), (2, 1, 0), (1, 0, 2)):
+            variables = {names[j]: " + ".join([names[i] for i in range(3) if i != j and dep[j][i]] + [str(consts[j])]) for j in perm}
+            cyc = has_cycle(dep)
+            st.extra["stub_contract_runs"] = st.extra.get("stub_contract_runs", 0) + 1
+            try:
+                ev = Spec(variables=variables)._spec_eval_expressions()
+                got = {k_: v for k_, v in dict(ev.variables).items() if k_ in names}
+                err = None
+            except EvaluationError as e:
+                got, err = None, str(e)[:80]
+            val = {}
+
+            def value(j):
+                if j not in val:
+                    val[j] = consts[j] + sum(value(i) for i in range(3) if i != j and dep[j][i])
+                return val[j]
+            if cyc:
+                bad = err is None
+            else:
+                bad = err is not None or got != {names[j]: value(j) for j in range(3)}
+            if bad:
+                out.append(dict(property=PID, kind="names", variables=variables, got=got, error=err, cyclic=cyc,
+                                what=f"definitions {variables} ({'cyclic' if cyc else 'acyclic'}): got {got if err is None else 'EvaluationError: ' + err}"))
+                return out
     return out
 
 
@@ -88,6 +134,14 @@ def run(args):
     t0 = time.time()
     if args.replay:
         v = json.load(open(args.replay))
+        if v.get("kind") == "names":
+            from accelforge.frontend.spec import Spec
+            from accelforge.util._eval_expressions import EvaluationError
+            try:
+                print(dict(Spec(variables=v["variables"])._spec_eval_expressions().variables))
+            except EvaluationError as e:
+                print("EvaluationError", str(e)[:100])
+            return 1
         if v.get("kind") == "scoping":
             print(v["what"])
             return 1
@@ -95,7 +149,7 @@ def run(args):
         print(r or "holds")
         return 1 if r else 0
     stats = Stats()
-    violations = scoping_probe(stats)
+    violations = scoping_probe(stats) + stub_contract_sweep(stats)
     perms3 = ["".join(map(str, p)) for p in itertools.permutations(range(3))]
     if args.tier == "quick":
         shards = [(3, "", p, 600) for p in perms3]
